@@ -705,6 +705,9 @@ func (p *Producer) opGasTransfer() *transaction.Transaction {
 		to = u.Hash() // self
 	case 1:
 		to = util.Uint160{byte(p.R.Intn(4)), 0xee} // fresh / recurring stranger
+		if p.R.Intn(4) == 0 {
+			to = util.Uint160{} // the all-zero account: an account like any other, not "nobody"
+		}
 	default:
 		to = p.Users[p.R.Intn(len(p.Users))].Hash()
 	}
